@@ -60,10 +60,9 @@ pub fn check_loaded(d: &ElfDesc, file: &[u8], lay: &elfb::Layout, ax: &Axecutor)
     }
     if let Some(syms) = &d.syms {
         for s in syms.iter().filter(|s| s.defined) {
-            let mut names: Vec<String> = syms.iter().filter(|x| x.defined && x.value == s.value).map(|x| x.name.clone().unwrap_or_default()).collect();
-            if s.value == d.entry {
-                names.push("_start".into());
-            }
+            // (the loader's synthetic "_start" at the entry is not a symbol *defined there*: an entry that
+            // carries its own defined symbols must resolve to one of those)
+            let names: Vec<String> = syms.iter().filter(|x| x.defined && x.value == s.value).map(|x| x.name.clone().unwrap_or_default()).collect();
             match ax.resolve_symbol(s.value) {
                 Some(n) if names.contains(&n) => {}
                 other => return Err(("symbol|wrong-or-missing-name".into(), format!("address {:#x} carries the defined symbols {:?} but resolves to {:?}", s.value, names, other))),
